@@ -97,6 +97,18 @@ def programs():
               [C('pair', V('Q'), peano(60))]))
     P.append(('const_then_deep', [(C('d2', A('k'), I(1), peano(70)), ('true',)), (C('d2', A('m'), I(2), peano(71)), ('true',))], 'd2',
               [V('Q'), V('R'), peano(70)]))
+    # the depth error strikes INSIDE a meta-call or control construct that is followed by further alternatives:
+    # whatever absorbs it there (a nested bounded evaluation, a handler) lets the search go on past the point
+    # where it has to stop, and the result is no longer a prefix
+    for n in (25, 70):
+        deep = [(C('deep', A('a')), ('true',)), (C('deep', A('b')), ('true',)),
+                (C('deep', X), ('and', ('call', C('down', peano(n))), ('call', C('=', X, A('c')))))] + down
+        P.append(('findall_deep_then_more%d' % n, [(C('t', V('L')), ('call', C('findall', X, C('deep', X), V('L')))), (C('t', A('none')), ('true',))] + deep, 't', [V('Q')]))
+        P.append(('once_deep_then_more%d' % n, [(C('t', X), ('call', C('once', C('down', peano(n))))), (C('t', A('none')), ('true',))] + deep, 't', [V('Q')]))
+        P.append(('not_deep_then_more%d' % n, [(C('t', A('a')), ('not', ('call', C('down', peano(n))))), (C('t', A('b')), ('true',))] + deep, 't', [V('Q')]))
+        P.append(('call_deep_then_more%d' % n, [(C('t', X), ('and', ('call', C('=', V('G'), C('down', peano(n)))), ('call', C('call', V('G'))))), (C('t', A('none')), ('true',))] + deep, 't', [V('Q')]))
+        P.append(('ite_deep_then_more%d' % n, [(C('t', X), ('or', ('then', ('call', C('down', peano(n))), ('call', C('=', X, A('a')))), ('call', C('=', X, A('b'))))),
+                                               (C('t', A('c')), ('true',))] + deep, 't', [V('Q')]))
     P.append(('deep_then_answers', [(C('d', X), ('and', ('call', C('down', peano(60))), ('call', C('mem', X, L([A('a'), A('b')])))))] + down + mem, 'd', [V('Q')]))
     return P
 
@@ -475,8 +487,12 @@ def judge(ctx, prog, job, r, idx):
     res = o['result']
     direct, dstat = o['direct']
     # the direct enumeration itself must agree with the reference (sanity of the oracle)
-    if direct != exp[:len(direct)]:
-        return {'c': c, 'nt': False, 'key': None, 'discard': 'direct_enumeration_differs_from_reference'}
+    # (the direct enumeration only says how far the search gets under this limit; the verdict on the result is
+    # against the reference answers. If the two disagree - never seen on the unchanged tree - the completeness
+    # part is skipped and the rest is still judged.)
+    direct_ok = direct == exp[:len(direct)]
+    if not direct_ok:
+        c['direct_enumeration_differs_from_reference'] = 1
     nproj_cap = CAP - 1
     if o['exc'] is not None:
         et = o['exc']['type']
@@ -498,7 +514,9 @@ def judge(ctx, prog, job, r, idx):
         if res != exp[:len(res)]:
             return viol('result_is_not_a_prefix_of_the_answers', {'expected_prefix': exp[:len(res)][:3], 'got': res[:3], 'n': len(res)})
         want_complete = None
-        if dstat == 'complete' and not fault:
+        if not direct_ok:
+            pass
+        elif dstat == 'complete' and not fault:
             want_complete = direct
         elif dstat == 'cap' and not fault:
             want_complete = direct[:nproj_cap]
